@@ -1,4 +1,4 @@
-import Verif.Lemmas.C13
+import Verif.Lemmas.C13Generic
 import Verif.Lemmas.C09
 import Verif.Lemmas.C16
 /-! # C17 — Evaluation never panics or hangs on any query or log content
